@@ -7,7 +7,7 @@ ROOT = os.path.dirname(os.path.dirname(os.path.abspath(__file__)))
 P = {
  "C01": (True, "progbatch",
          "grammar-based program generation + differential PBT: generated traits compiled against the tree, proptest call sequences through opaque objects vs direct calls on a twin implementor",
-         "A seeded grammar generates batches of cglue traits (5 receiver kinds x 14 argument shapes x 15 return shapes incl. int_result, result aliases, -> Self and wrapped associated objects/groups also inside Result; trait-level generics, Send/Sync supertraits, provided / #[skip_func] / #[vtbl_only] methods, extern \"C\"/unsafe methods, module-path spellings of Option/Result; seven measured-rare features are forced into every batch) and groups over them (aliases, generic members, casts, cast back through From, final forms) with stateful implementors; each batch is compiled against /repo's current tree and every admissible container kind (boxed, CBox, &mut, &, CArcSome; without context, with CArc and with a counting context) is driven by generated call sequences. After every call returns, event logs (method id + argument digest), state hash chain and instance id are compared with direct calls on a twin. A failing trait program is shrunk structurally (methods deleted while the violation key reproduces) and the reduced program is named in the replay. Exploration over a large but finite grammar.",
+         "A seeded grammar generates batches of cglue traits (5 receiver kinds x 14 argument shapes x 15 return shapes incl. int_result, result aliases, -> Self and wrapped associated objects/groups also inside Result, &'static str / slice returns for every receiver, associated types with and without a lifetime bound; doc comments and inert attributes whose text names the generator's attributes; trait-level generics, Send/Sync supertraits, provided / #[skip_func] / #[vtbl_only] methods, extern \"C\"/unsafe methods, module-path spellings of Option/Result; nine measured-rare features are forced into every batch) and groups over them (aliases, generic members, casts, cast back through From, final forms) with stateful implementors; each batch is compiled against /repo's current tree and every admissible container kind (boxed, CBox, &mut, &, CArcSome; without context, with CArc and with a counting context) is driven by generated call sequences. After every call returns, event logs (method id + argument digest), state hash chain and instance id are compared with direct calls on a twin. A failing trait program is shrunk structurally (methods deleted while the violation key reproduces) and the reduced program is named in the replay. Exploration over a large but finite grammar.",
          "generated implementor driven directly is the reference; definitions rejected by rustc on the current tree are retried without by-name vtable getters, then counted as compile_rejected (NOTE on stderr)",
          "DESIGN.md 4/C01"),
  "C02": (True, "progbatch",
@@ -17,17 +17,17 @@ P = {
          "DESIGN.md 4/C02"),
  "C03": (True, "expander+lint",
          "systematic enumeration + random generation of definitions; oracle 1: rustc's improper_ctypes lints on expansions written out as source with probe declarations; oracle 2: structural check of the token stream",
-         "All single-method traits over (5 receivers x 23 argument shape classes x up to 20 return shape classes x int_result on/off) = 3.8k definitions plus random multi-method traits (generic, aliased results, wrapped returns inside Result, path spellings), hand-written alias/no_int_result/extern \"C\" definitions and groups (5.4k in all) are expanded in-process by /repo's cglue_gen used as a library. Every expansion is checked structurally (every vtable entry and wrapper extern \"C\", no slice/str/tuple/Result/non-NPO Option/Rust-ABI fn/std container in a signature, repr on every generated struct); a sample (quick: every 13th + all random; thorough: all) is written into a crate with #![deny(improper_ctypes, improper_ctypes_definitions)] together with extern \"C\" probes over the opaque Box/ArcBox/Mut/Ref/ArcRef object types and over every runtime wrapper type, and compiled; a syn-based audit requires a repr on every public runtime type; eight ABI probes (one process each) let a panic reach every hand-written extern \"C\" function of the runtime types and a generated vtable entry and require an abort, not an unwind (a Rust-ABI function behind a transmute unwinds).",
+         "All single-method traits over (5 receivers x 23 argument shape classes x up to 20 return shape classes x int_result on/off) = 3.8k definitions plus random multi-method traits (generic, aliased results, wrapped returns inside Result, path spellings), hand-written alias/no_int_result/extern \"C\" definitions and groups (5.9k in all) are expanded in-process by /repo's cglue_gen used as a library. Every expansion is checked structurally (every vtable entry and wrapper extern \"C\", no slice/str/tuple/Result/non-NPO Option/Rust-ABI fn/std container in a signature, repr on every generated struct); a sample (quick: every 13th + all random; thorough: all) is written into a crate with #![deny(improper_ctypes, improper_ctypes_definitions)] together with extern \"C\" probes over the opaque Box/ArcBox/Mut/Ref/ArcRef object types and over every runtime wrapper type, and compiled; a syn-based audit requires a repr on every public runtime type; eight ABI probes (one process each) let a panic reach every hand-written extern \"C\" function of the runtime types and a generated vtable entry and require an abort, not an unwind (a Rust-ABI function behind a transmute unwinds).",
          "the installed stable rustc's lints are the yardstick; leaf types are restricted to what that lint accepts (no char), extern \"C\" trait methods only get C-safe user signatures",
          "DESIGN.md 4/C03"),
  "C04": (True, "progbatch+expander",
          "generated programs with raw-word layout oracles + expansion determinism over fresh processes",
-         "In every generated (definition, container) case the concrete object is compared with its opaque form (size, alignment, all bytes preserved by into_opaque) and the static vtable is read as raw words: exactly one pointer per exported method, word i == public getter of the i-th declared method. Generated groups: vtable pointers read from the raw words of the group object must sit at mandatory-by-name then optional-by-name positions (null exactly when not enabled), then the container (instance first, context next, no extra field), and the cast form must have the identical words, the final (into!) form the kept pointers in name order; every single-trait object is {vtable pointer, container{instance, context, temporary storage}} at the computed offsets, and a borrowed wrapped return lies inside the object that lent it. Each definition is also expanded (plain and through the #[cglue_trait_ext] route) in 8 (quick) / 32 (thorough) fresh processes under three expanding crates and the ordered (struct, fields) lists of all repr(C) structs must be identical.",
+         "In every generated (definition, container) case the concrete object is compared with its opaque form (size, alignment, all bytes preserved by into_opaque) and the static vtable is read as raw words: exactly one pointer per exported method, word i == public getter of the i-th declared method. Generated groups: vtable pointers read from the raw words of the group object must sit at mandatory-by-name then optional-by-name positions (null exactly when not enabled), then the container (instance first, context next, no extra field), and the cast form must have the identical words, the final (into!) form the kept pointers in name order; every single-trait object is {vtable pointer, container{instance, context, temporary storage}} at the computed offsets, and a borrowed wrapped return lies inside the object that lent it; from the expansion, every group struct lists its vtable pointers and its container the temporary storage of its traits as mandatory-by-name then optional-by-name. Each definition is also expanded (plain and through the #[cglue_trait_ext] route) in 8 (quick) / 32 (thorough) fresh processes under three expanding crates and the ordered (struct, fields) lists of all repr(C) structs must be identical.",
          "vtable pointers are obtained through public accessors (get_vtbl, GetVtblBase, cast+upcast), never through field names",
          "DESIGN.md 4/C04"),
  "C06": (True, "rtprops+progbatch",
          "stateful PBT over object-pool histories of a hand-written trait family + lifecycle oracle on generated programs; drop tokens and tracking allocator",
-         "Histories {create object/group, call, owned/borrowed wrapped children, Clone via group, cast+upcast, into(final), consuming calls, into_inner, -> Self constructors, drop in generated order} over a three-level family whose every value owns a heap token, plus the generated program batches with the lifecycle oracle: each token dropped exactly once, by-reference containers never drop what they borrow, allocation window balanced with matching layouts.",
+         "Histories {create object/group, call, owned/borrowed wrapped children, Clone via group, cast+upcast, into(final), consuming calls, into_inner, -> Self constructors, replacing a mutably borrowed child through its &mut, refused and granted final casts of a partially enabled group, drop in generated order} over a three-level family whose every value owns a heap token, plus the generated program batches with the lifecycle oracle: each token dropped exactly once, by-reference containers never drop what they borrow, allocation window balanced with matching layouts.",
          "tracking allocator + token registry of the harness; Miri is not used (it rejects cglue's type erasure itself)",
          "DESIGN.md 4/C06"),
  "C07": (True, "rtprops+progbatch",
@@ -37,12 +37,12 @@ P = {
          "DESIGN.md 4/C07"),
  "C08": (True, "c08cells",
          "exhaustive enumeration of a finite matrix by a generated crate (degenerate PBT: every input is generated)",
-         "All cells (n in 1..4 optional traits incl. two aliased instantiations of a generic trait, 0..2 mandatory traits) x (2^n enabled sets) x (2^n-1 requested sets) x {check, as_ref, as_mut, cast+upcast, into} x {Box, &mut, &, Box+CArc context}: success iff requested is a subset of enabled; after success every mandatory and requested method reaches the same instance in the right slot with the right argument; cast+upcast preserves the whole check matrix; drops and context count exact. 17k cells, exhaustive.",
+         "All cells (n in 1..4 optional traits incl. two aliased instantiations of a generic trait, 0..2 mandatory traits) x (2^n enabled sets) x (2^n-1 requested sets) x {check, as_ref, as_mut, cast+upcast, into} x {Box, &mut, &, Box+CArc context}: success iff requested is a subset of enabled (requests spelled with bare names and with paths; one optional pair whose order depends on case handling); after success every mandatory and requested method reaches the same instance in the right slot with the right argument; cast+upcast preserves the whole check matrix; drops and context count exact. 17k cells, exhaustive.",
          "enumeration bound n <= 4",
          "DESIGN.md 4/C08"),
  "C09": (True, "c09markers",
          "exhaustive enumeration of generated type expressions; marker booleans computed with the inherent-const-shadows-trait-const trick",
-         "Every opaque-conversion rule (references, CBox, CSliceBox, CArc, CArcSome, Fwd over each handle kind, containers, generated objects, groups, group containers; with and without context; plus wrapper rows comparing each smart pointer / Fwd with the std handle it stands for) x payloads {Send,!Send}x{Sync,!Sync} x {Send,Sync}: convertible and marker(opaque form) implies marker(instance handle). Finite matrix, exhaustive. 11 (handle, marker) cells fail on the pinned tree and are listed as known findings; any other failing cell is a violation.",
+         "Every opaque-conversion rule (references, CBox, CSliceBox, CArc, CArcSome, Fwd over each handle kind, containers, generated objects, groups, group containers; with and without context; the same for a trait with real temporary-return storage, whose objects are never Sync; plus wrapper rows comparing each smart pointer / CVec / Fwd with the std handle it stands for) x payloads {Send,!Send}x{Sync,!Sync} x {Send,Sync}: convertible and marker(opaque form) implies marker(instance handle). Finite matrix, exhaustive. 11 (handle, marker) cells fail on the pinned tree and are listed as known findings; any other failing cell is a violation.",
          "stated target types are compared with type_name of the real OpaqueTarget",
          "DESIGN.md 4/C09"),
  "C10": (True, "rtprops",
@@ -62,7 +62,7 @@ P = {
          "DESIGN.md 4/C12"),
  "C13": (True, "rtprops+progbatch",
          "PBT over the product of result shapes with poisoned output slots and drop tokens; sweep of i32 OS codes",
-         "Library half (rtprops): every combination of payload {(), u64, droppable} x error {io raw code, io non-OS, (), fmt::Error, user IntError} x Ok/Err x both APIs with edge codes, then random; 300k (quick) / 5M (thorough) distinct OS codes through encode->decode. Oracle: 0 iff Ok, slot written exactly on Ok (token identity), byte-identical poison on Err, no read of the slot when decoding a failure, no shipped error encodes to 0, non-zero OS codes survive. Wrapped half (rtprops): hand-written int_result traits incl. plain-Result neighbours and lossy error types, raw vtable entries called with poisoned slots. Generated half (progbatch): int_result productions of the grammar (trait- and method-level, aliases, no_int_result, wrapped payloads) end to end, decoded Result compared with the direct call, and the vtable entry of every int_result method must return i32.",
+         "Library half (rtprops): every combination of payload {(), u64, droppable} x error {io raw code, io non-OS, (), fmt::Error, user IntError} x Ok/Err x both APIs with edge codes, then random; 300k (quick) / 5M (thorough) distinct OS codes through encode->decode. Oracle: 0 iff Ok, slot written exactly on Ok (token identity), byte-identical poison on Err, no read of the slot when decoding a failure, no shipped error encodes to 0, non-zero OS codes survive. Wrapped half (rtprops): hand-written int_result traits incl. plain-Result neighbours and lossy error types, raw vtable entries called with poisoned slots. Generated half (progbatch): int_result productions of the grammar (trait- and method-level, aliases, no_int_result, wrapped payloads) end to end, decoded Result compared with the direct call, and the vtable entry of every int_result method must return i32 and carry the output slot when there is a success payload; a user error type whose encoder unwinds (error destroyed once, slot untouched).",
          "output slot poison pattern 0xA7; token registry",
          "DESIGN.md 4/C13"),
  "C14": (True, "rtprops",
@@ -87,25 +87,26 @@ P = {
          "DESIGN.md 4/C19"),
  "C20": (True, "c20pairs",
          "metamorphic PBT: (definition, single-edit variant) pairs compiled with the layout_checks feature and compared with compare_layouts and VerifyLayout::check",
-         "Generated traits (1-4 methods over StableAbi leaf types and the auto-wrapped shapes) and groups over them; each pair differs by exactly one edit (add/remove/rename/reorder method, argument/return type, receiver, int_result, add/remove argument, add/remove optional trait, mandatory/optional swap, an edit inside an optional member or inside the trait of an object the compared type returns, or a C-neutral edit). Both sides live in separate modules of one crate; the Box and ArcBox opaque object/group types are compared: identical or order-permuted definitions must be Valid, C-visible edits must not be Valid, a missing description must be Unknown, a type against itself Valid; VerifyLayout::check (expected type vs found description) is issued in sequences, also right after a successful check of the same description; C-neutral edits carry no requirement. The 9 ordered pairs of `and` and the strict/relaxed predicates are enumerated.",
+         "Generated traits (1-4 methods over StableAbi leaf types and the auto-wrapped shapes) and groups over them; each pair differs by exactly one edit (add/remove/rename/reorder method, argument/return type, receiver, int_result, add/remove argument, add a provided #[vtbl_only] (C-visible) or #[skip_func] (not C-visible) method, add/remove optional trait, mandatory/optional swap, an edit inside an optional member or inside the trait of an object the compared type returns, or a C-neutral edit). Both sides live in separate modules of one crate; the Box and ArcBox opaque object/group types are compared: identical or order-permuted definitions must be Valid, C-visible edits must not be Valid, a missing description must be Unknown, a type against itself Valid; VerifyLayout::check (expected type vs found description) is issued in sequences, also right after a successful check of the same description; C-neutral edits carry no requirement. The 9 ordered pairs of `and` and the strict/relaxed predicates are enumerated.",
          "the expected verdict comes from the generator's own model of the C-visible signature",
          "DESIGN.md 4/C20"),
  "C17": (True, "hdr",
          "model-based generation of cbindgen-shaped C and C++ headers + execution of the post-processed header against mock vtables (differential vs the model)",
-         "Generated API models are rendered in cbindgen's C output shape (two of three) or C++ output shape (every third), post-processed by /repo's cglue-bindgen (stub cbindgen on PATH), and a generated C (resp. C++) driver calls every wrapper (inline function, resp. member function; destructors as drop helpers) offered for every vtable entry of every object/group instantiation with distinctive arguments against mock vtables that record (slot, container, arguments) and mock box/arc functions that count: right slot, object's own container, arguments unchanged and in order, scripted return value back; consuming entries and drop helpers release instance and context once and hold a context clone across the call. Context handles are told apart (a clone is a handle of its own) and a consumed C++ object goes out of scope before the events are counted. Three genuine defects of the C generator and one of the C++ generator are listed as known findings.",
+         "Generated API models are rendered in cbindgen's C output shape (two of three) or C++ output shape (every third), post-processed by /repo's cglue-bindgen (stub cbindgen on PATH), and a generated C (resp. C++) driver calls every wrapper (inline function, resp. member function; destructors as drop helpers) offered for every vtable entry of every object/group instantiation with distinctive arguments against mock vtables that record (slot, container, arguments) and mock box/arc functions that count: right slot, object's own container, arguments unchanged and in order, scripted return value back; consuming entries and drop helpers release instance and context once and hold a context clone across the call. Context handles are told apart (a clone is a handle of its own), a consumed C++ object goes out of scope before the events are counted, and consuming -> Self entries hand the container on to the returned object. Three genuine defects of the C generator and one of the C++ generator are listed as known findings.",
          "cbindgen is not installed: the raw headers are an emulation restricted to concrete item shapes that occur verbatim in examples/pregen-headers/bindings.h (C) and to the template shapes codegen/cpp.rs matches (C++); gcc/g++ -O0",
          "DESIGN.md 4/C17"),
  "C18": (True, "hdr",
          "generated C and C++ headers + generated argv vectors; oracles: two C compilers (resp. g++ and clang++ -std=c++11), byte equality over fresh processes, subsequence of foreign declarations, recording stub for the argv contract",
-         "Same header space with user declarations (some named like CGlue patterns) interleaved at generated positions: gcc and clang -std=c99 (g++ and clang++ -std=c++11 for C++ models, whose argument types also nest templates two deep) accept the output standalone; items generic over the context, sized temporary storage, license/guard/autogen preambles and look-alike foreign declarations are part of the space; 5 runs in fresh processes are byte-identical; every foreign declaration is kept verbatim and in order; generated argument vectors (config before `--`, +nightly, -o/--output at any position or absent, arbitrary cbindgen flags) are checked against what the stub cbindgen actually received and where the output landed, also over a pre-existing longer output file.",
+         "Same header space with user declarations (some named like CGlue patterns) interleaved at generated positions: gcc and clang -std=c99 (g++ and clang++ -std=c++11 for C++ models, whose argument types also nest templates two deep) accept the output standalone; items generic over the context, sized temporary storage, group names ending in `Container`, non-ASCII foreign text, an exported function with a MaybeUninit output slot (C++), license/guard/autogen preambles and look-alike foreign declarations are part of the space; 5 runs in fresh processes are byte-identical; every foreign declaration is kept verbatim and in order; generated argument vectors (config before `--`, +nightly, -o/--output at any position or absent, arbitrary cbindgen flags) are checked against what the stub cbindgen actually received and where the output landed, also over a pre-existing longer output file.",
          "same emulation of cbindgen output; of the `Context`-generic items only container items are modelled",
          "DESIGN.md 4/C18"),
  "C05": (True, "xmod",
          "configuration sampling x stateful PBT across a dlopen boundary; differential vs host-local reference; per-module tagging allocators",
-         "One API crate is compiled separately into a plugin cdylib and a host binary by different toolchains (stable 1.95, nightly, 1.98.1, nightly-2026-08-21), optimisation levels and -Zrandomize-layout seeds, each with its own tagging global allocator; the host loads the plugin and runs generated histories (object/group calls over every wrapped shape, casts, Clone, drops in the other module, CVec made/grown/consumed on both sides, CArc context and payloads cloned/dropped/transposed/round-tripped across, CBox/CSliceBox from the plugin dropped in the host, consuming calls, inserts and clones of vectors on the other side, unloading the plugin only after the last object that holds its library). Oracle: results equal host-local reference implementors, neither allocator ever sees a free/realloc of a block it did not allocate, plugin live-instance/live-block counters and the host context count return to their start values, layout digests agree. quick: 2 build pairs x 400 histories; thorough: 12 pairs over all four toolchains x 3000.",
+         "One API crate is compiled separately into a plugin cdylib and a host binary by different toolchains (stable 1.95, nightly, 1.98.1, nightly-2026-08-21), optimisation levels and -Zrandomize-layout seeds, each with its own tagging global allocator; the host loads the plugin and runs generated histories (object/group calls over every wrapped shape, casts, Clone, drops in the other module, CVec made/grown/consumed on both sides, a group with three mandatory traits that each side expands for itself, CArc context and payloads cloned/dropped/transposed/round-tripped across, CBox/CSliceBox from the plugin dropped in the host, consuming calls, inserts and clones of vectors on the other side, unloading the plugin only after the last object that holds its library). Oracle: results equal host-local reference implementors, neither allocator ever sees a free/realloc of a block it did not allocate, plugin live-instance/live-block counters and the host context count return to their start values, layout digests agree. quick: 2 build pairs x 400 histories; thorough: 12 pairs over all four toolchains x 3000.",
          "four rustc versions of one LLVM family on one target; plugin and host share the API source, as the documented use does",
          "DESIGN.md 4/C05"),
 }
+RT_ALT = " The quick-tier case set is run a second time against the library built without its `std` feature, with `log` at trace level, in the release profile."
 NOT_YET = "check not built yet in this round (see DESIGN.md section 4 for the planned generator and oracle)"
 
 def main():
@@ -114,6 +115,8 @@ def main():
     for pid in ids:
         if pid in P and P[pid][0]:
             _, engine, tech, text, note, ref = P[pid]
+            if pid in ("C06", "C07", "C10", "C11", "C12", "C14", "C15", "C16", "C19"):
+                text = text + RT_ALT
             checks.append({
                 "property_id": pid,
                 "quick_cmd": f"./check {pid} --tier quick",
